@@ -73,8 +73,8 @@ type Rules struct {
 	// UsedResourcesOnly (with PushDownPageAttrs): a page's effective resource dictionary is
 	// replaced by the entries its content uses ({category: {name: object}}).
 	UsedResourcesOnly bool
-	// DropEmptyCatalogTrees: a catalog /Names that is an empty dictionary and a catalog /Outlines
-	// without /First (no item) count as absent.
+	// DropEmptyCatalogTrees: a catalog /Names that is an empty dictionary, a catalog /Outlines
+	// without /First (no item) and a catalog /AcroForm with an empty /Fields array count as absent.
 	DropEmptyCatalogTrees bool
 	// StripSubsetTags removes the subset tag ("ABCDEF+") from /BaseFont of font dictionaries.
 	StripSubsetTags bool
@@ -293,6 +293,9 @@ func (g *Graph) add(o pdfstrict.Object, drop map[string]bool) Val {
 func typeOf(g *Graph, d pdfstrict.Dict) string {
 	for _, k := range []string{"Type", "Subtype", "S"} {
 		if t, ok := g.Doc.Resolve(d[k]).(pdfstrict.Name); ok {
+			if k == "Subtype" && (t == "Form" || t == "Image" || t == "PS") {
+				return "XObject" // /Type is optional for XObjects
+			}
 			return string(t)
 		}
 	}
@@ -332,6 +335,9 @@ func (g *Graph) emptyCatalogTree(k string, v pdfstrict.Object) bool {
 		return true
 	case "Outlines":
 		return pdfstrict.IsNull(g.Doc.Resolve(d["First"]))
+	case "AcroForm":
+		f, isArr := g.Doc.Resolve(d["Fields"]).(pdfstrict.Array)
+		return isArr && len(f) == 0
 	}
 	return false
 }
